@@ -4,4 +4,13 @@ LEVEL_TEXT = ("C09: for EVERY system call of the runtime's directory/stream/meta
               "a finished stream visible in the trace directory holds all flushed bytes (direct and OVNI_TMPDIR modes).")
 
 def obligations(tier, sc):
-    return fs_obligations(1, tier, sc) + move_unit_obligations(1, tier, sc)
+    obs = fs_obligations(1, tier, sc) + move_unit_obligations(1, tier, sc)
+    # second sentence of the statement ("a stream is marked finished only after all its flushed bytes are in their
+    # final place, also when ... relocated"): the relocation of one file reports success only if the destination is
+    # complete, for every single I/O fault inside it - otherwise the second pass publishes the finished metadata next
+    # to a truncated stream.  These are C10's unit obligations on move_thread_to_final, re-run under this property (a
+    # seeded change ignored the result of fclose on the copy: a write error in the last partial block was lost).
+    for ob in move_unit_obligations(2, tier, sc):
+        ob.name = "finished_only_after_bytes_in_place_" + ob.name
+        obs.append(ob)
+    return obs
